@@ -345,6 +345,48 @@ def zeros_like_of_zeros(tree):
     return tree
 
 
+def inline_const_locals(tree):
+    """A local bound exactly once in its function, at the top level of the function body, to a numeric literal (`lower, upper = 0, 1`,
+    `std = 0.1`), never a parameter, and only read afterwards, is that literal wherever it is read."""
+    def lit(e):
+        if isinstance(e, ast.UnaryOp) and isinstance(e.op, (ast.USub, ast.UAdd)):
+            e = e.operand
+        return isinstance(e, ast.Constant) and isinstance(e.value, (int, float)) and not isinstance(e.value, bool)
+    for fn in [x for x in ast.walk(tree) if isinstance(x, ast.FunctionDef)]:
+        params = {a.arg for a in fn.args.args} | {'self'}
+        stores = {}
+        for x in ast.walk(fn):
+            if isinstance(x, ast.Name) and isinstance(x.ctx, (ast.Store, ast.Del)):
+                stores[x.id] = stores.get(x.id, 0) + 1
+        i = 0
+        while i < len(fn.body):
+            st = fn.body[i]
+            pairs = None
+            if isinstance(st, ast.Assign) and len(st.targets) == 1:
+                t, v = st.targets[0], st.value
+                if isinstance(t, ast.Name) and lit(v):
+                    pairs = [(t.id, v)]
+                elif isinstance(t, ast.Tuple) and isinstance(v, ast.Tuple) and len(t.elts) == len(v.elts) \
+                        and all(isinstance(a, ast.Name) for a in t.elts) and all(lit(b) for b in v.elts):
+                    pairs = [(a.id, b) for a, b in zip(t.elts, v.elts)]
+            if pairs and all(n not in params and stores.get(n, 0) == 1 for n, _ in pairs) \
+                    and not any(isinstance(x, ast.Name) and x.id in dict(pairs) for b in fn.body[:i] for x in ast.walk(b)):
+                env = dict(pairs)
+
+                class Sub(ast.NodeTransformer):
+                    def visit_Name(self, node):
+                        if node.id in env and isinstance(node.ctx, ast.Load):
+                            return ast.copy_location(copy.deepcopy(env[node.id]), node)
+                        return node
+                for j in range(i + 1, len(fn.body)):
+                    fn.body[j] = Sub().visit(fn.body[j])
+                del fn.body[i]
+                ast.fix_missing_locations(fn)
+                continue
+            i += 1
+    return tree
+
+
 def merge_tail_returns(tree):
     """`if c: A; return X` followed (to the end of the function) by `B; return X` with the same expression X -- and no `else` -- is
     `if c: A else: B` followed by `return X`: the early exit and the fall-through return the same thing."""
